@@ -608,7 +608,7 @@ class Interp:
         """Parts that the textual interpolation of `val` contributes."""
         val = self.force(val) if isinstance(val, (Choice,)) else val
         if isinstance(val, Str):
-            return list(val.parts)
+            return list(val.parts) + ([RStripEnd()] if val.rstripped else [])
         if isinstance(val, Const) and isinstance(val.v, str) and not spec.strip("!s"):
             return [Lit(val.v)]
         if isinstance(val, Const) and not spec:
